@@ -5,6 +5,7 @@ The model (Model/Drbg.lean) mirrors src/rand/relic_rand_hashd.c byte for byte; t
 -/
 import RelicVerif.Lemmas.Drbg
 import RelicVerif.Model.RandInt
+import RelicVerif.Lemmas.RandInt
 
 namespace Relic.Props.C15
 open Relic.Model.Drbg Relic.Spec
@@ -36,7 +37,7 @@ section RandInt
 open Relic.Model.RandInt
 
 /-- integers sampled below a bound are always in [1, bound), for every byte source, every state and every number of redraws -/
-theorem bn_rand_mod_range {σ : Type} (draw : σ → Nat → Option (List Nat × σ)) (w cap b : Nat) (hb : 0 < b) (fuel : Nat) (s : σ) (r : Nat)
+theorem bn_rand_mod_range {σ : Type} (draw : σ → Nat → Option (List UInt8 × σ)) (w cap b : Nat) (hb : 0 < b) (fuel : Nat) (s : σ) (r : Nat)
     (h : bnRandMod draw w cap b fuel s = some r) : 1 ≤ r ∧ r < b := by
   induction fuel generalizing s with
   | zero => simp [bnRandMod] at h
@@ -56,9 +57,107 @@ theorem bn_rand_mod_range {σ : Type} (draw : σ → Nat → Option (List Nat ×
         exact ⟨Nat.pos_of_ne_zero hne, Nat.mod_lt _ hb⟩
 
 /-- … and are a deterministic function of the generator state (the model is a function) -/
-theorem bn_rand_mod_deterministic {σ : Type} (draw : σ → Nat → Option (List Nat × σ)) (w cap b fuel : Nat) (s : σ) (r r' : Nat)
+theorem bn_rand_mod_deterministic {σ : Type} (draw : σ → Nat → Option (List UInt8 × σ)) (w cap b fuel : Nat) (s : σ) (r r' : Nat)
     (h : bnRandMod draw w cap b fuel s = some r) (h' : bnRandMod draw w cap b fuel s = some r') : r = r' := by
   rw [h] at h'; exact Option.some.inj h'
+
+
+/-- bn_rand: the digit vector returned for a request of `bits` bits has a value below 2^bits — for every requested length (zero, below one
+    digit, a multiple of the digit size, any number of digits), every digit size, every byte source and every state -/
+theorem bn_rand_bits {σ : Type} (draw : σ → Nat → Option (List UInt8 × σ)) (w cap : Nat) (s s' : σ) (bits : Nat) (dp : List Nat)
+    (h : bnRand draw w cap s bits = some (dp, s')) : valDigits w dp < 2 ^ bits := by
+  unfold bnRand at h
+  simp only at h
+  split at h
+  · simp at h
+  split at h
+  · simp at h
+  · next bytes s1 _ =>
+    simp only [Option.some.injEq, Prod.mk.injEq] at h
+    obtain ⟨rfl, _⟩ := h
+    have hb := valDigits_maskTop_lt w (digitsOf bytes w (digitsFor w bits)) (digitsOf_lt _ _ _) (bits % w)
+    rw [digitsOf_length] at hb
+    unfold digitsFor at hb ⊢
+    by_cases hr : bits % w > 0
+    · have hpos : bits / w + 1 > 0 := Nat.succ_pos _
+      simp only [hr, hpos, and_self, if_true, Nat.add_sub_cancel] at hb ⊢
+      rwa [Nat.div_add_mod] at hb
+    · simp only [hr, if_false, false_and, Nat.add_zero] at hb ⊢
+      exact Nat.lt_of_lt_of_le hb (Nat.pow_le_pow_right (by omega) (Nat.mul_div_le bits w))
+
+/-- bn_rand: the generator state advances exactly as ONE draw of digits·(w/8) bytes (digits = ⌈bits/w⌉), the digit vector is a function
+    of those bytes only (host-order digits, top digit masked to bits mod w) and has exactly `digits` entries -/
+theorem bn_rand_state {σ : Type} (draw : σ → Nat → Option (List UInt8 × σ)) (w cap : Nat) (s s' : σ) (bits : Nat) (dp : List Nat)
+    (h : bnRand draw w cap s bits = some (dp, s')) :
+    ∃ bytes, draw s (digitsFor w bits * (w / 8)) = some (bytes, s') ∧
+      dp = maskTop (digitsOf bytes w (digitsFor w bits)) (bits % w) ∧ dp.length = digitsFor w bits ∧ digitsFor w bits ≤ cap := by
+  unfold bnRand at h
+  simp only at h
+  split at h
+  · simp at h
+  · next hcap =>
+    split at h
+    · simp at h
+    · next bytes s1 hd =>
+      simp only [Option.some.injEq, Prod.mk.injEq] at h
+      obtain ⟨rfl, rfl⟩ := h
+      exact ⟨bytes, hd, rfl, by rw [maskTop_length, digitsOf_length], by omega⟩
+
+/-- bn_rand refuses exactly when the request exceeds the capacity or the generator refuses the draw (then no state is returned) -/
+theorem bn_rand_refuses {σ : Type} (draw : σ → Nat → Option (List UInt8 × σ)) (w cap : Nat) (s : σ) (bits : Nat) :
+    bnRand draw w cap s bits = none ↔ (digitsFor w bits > cap ∨ draw s (digitsFor w bits * (w / 8)) = none) := by
+  unfold bnRand
+  simp only
+  split
+  · next h => simp [h]
+  · next h =>
+    split
+    · next hd => simp [hd]
+    · next bytes s1 hd => simp [h, hd]
+
+/-- bn_rand is a deterministic function of (state, request) -/
+theorem bn_rand_deterministic {σ : Type} (draw : σ → Nat → Option (List UInt8 × σ)) (w cap : Nat) (s : σ) (bits : Nat) (r r' : List Nat × σ)
+    (h : bnRand draw w cap s bits = some r) (h' : bnRand draw w cap s bits = some r') : r = r' := by
+  rw [h] at h'; exact Option.some.inj h'
+
+/-- fp_rand: the result is reduced (below the prime) and equals the masked draw modulo p; the state advances exactly as ONE draw of
+    RLC_FP_DIGS·(w/8) bytes — for every prime p > 0, byte source and state (the subtraction loop is modelled with fuel that is proved sufficient) -/
+theorem fp_rand_reduced {σ : Type} (draw : σ → Nat → Option (List UInt8 × σ)) (w fpDigs fpBits p : Nat) (hp : 0 < p) (s s' : σ) (a : Nat)
+    (h : fpRand draw w fpDigs fpBits p s = some (a, s')) :
+    a < p ∧ ∃ bytes, draw s (fpDigs * (w / 8)) = some (bytes, s') ∧
+      a = valDigits w (maskTop (digitsOf bytes w fpDigs) (fpBits % w)) % p := by
+  unfold fpRand at h
+  split at h
+  · simp at h
+  · next bytes s1 hd =>
+    simp only [Option.some.injEq, Prod.mk.injEq] at h
+    obtain ⟨rfl, rfl⟩ := h
+    rw [subWhile_eq_mod p hp _ _ (Nat.lt_succ_self _)]
+    exact ⟨Nat.mod_lt _ hp, bytes, hd, rfl⟩
+
+/-- before the subtraction loop the masked draw of fp_rand is below 2^fpBits when the digit count is ⌈fpBits/w⌉ (so for a prime of exactly
+    fpBits bits the loop body runs at most once) -/
+theorem fp_rand_masked_bits (bytes : List UInt8) (w fpBits : Nat) :
+    valDigits w (maskTop (digitsOf bytes w (digitsFor w fpBits)) (fpBits % w)) < 2 ^ fpBits := by
+  have h := bn_rand_bits (σ := Unit) (fun _ _ => some (bytes, ())) w (digitsFor w fpBits) () () fpBits
+    (maskTop (digitsOf bytes w (digitsFor w fpBits)) (fpBits % w)) (by simp [bnRand])
+  exact h
+
+/-- fb_rand: the polynomial has degree below m = RLC_FB_BITS (value of the digit vector below 2^m) when RLC_FB_DIGS = ⌈m/w⌉, it has exactly
+    RLC_FB_DIGS digits, and the state advances exactly as ONE draw of RLC_FB_DIGS·(w/8) bytes — for every byte source and state -/
+theorem fb_rand_degree {σ : Type} (draw : σ → Nat → Option (List UInt8 × σ)) (w fbBits : Nat) (s s' : σ) (dp : List Nat)
+    (h : fbRand draw w (digitsFor w fbBits) fbBits s = some (dp, s')) :
+    valDigits w dp < 2 ^ fbBits ∧ dp.length = digitsFor w fbBits ∧
+      ∃ bytes, draw s (digitsFor w fbBits * (w / 8)) = some (bytes, s') := by
+  unfold fbRand at h
+  split at h
+  · simp at h
+  · next bytes s1 hd =>
+    simp only [Option.some.injEq, Prod.mk.injEq] at h
+    obtain ⟨rfl, rfl⟩ := h
+    exact ⟨fp_rand_masked_bits bytes w fbBits, by rw [maskTop_length, digitsOf_length], bytes, hd⟩
+
+example : ∃ dp, bnRand (σ := Unit) (fun _ n => some (List.replicate n 255, ())) 64 34 () 65 = some (dp, ()) := ⟨_, rfl⟩
 
 
 end RandInt
